@@ -733,6 +733,9 @@ func (p *parser) parseInfixExpression() (*astNode, error) {
 				if cnt == -1 {
 					cnt = len(outputStack) - top.l
 				}
+				if cnt < 0 || cnt > len(outputStack) {
+					return p.invalidExprErr(top.t.pos)
+				}
 
 				children := make([]*astNode, cnt)
 				for i := cnt - 1; i >= 0; i-- {
